@@ -1,0 +1,16 @@
+//go:build verif
+
+// Machine-checked contracts for package web (comment-only; read by
+// /verif/gocv). Nothing in this file is compiled into the gateway.
+package web
+
+//@ func (*Config).NewHandler
+//@   requires c != nil
+//@   ensures[C18,C12] hosts: result != nil && len(result.hosts) >= 1
+//@   ensures[C12] wiring: result.hostSelection == c.HostSelection && result.hosts == c.Hosts && result.queryInfo == c.QueryInfo && result.queryTokenIssuer == c.QueryTokenIssuer && result.paaTokenGenerator == c.PAATokenGenerator && result.gatewayAddress == c.GatewayAddress && result.rdpOpts == c.RdpOpts
+//@   nopanic[C10]
+
+//@ func InitStore
+//@   assigns sessionStore
+//@   ensures[C18] keys: len(sessionKey) >= 32 && len(encryptionKey) >= 32
+//@   nopanic[C10]
